@@ -399,6 +399,70 @@ def gen_mig_cross(rng):
             'cross_stage': True}
 
 
+def write_and_install(proj, g):
+    """Write the project of g into proj and bring the database to the
+    already-applied state.  -> (kwargs of the upgrade run, None) or
+    (None, error text)."""
+    for a in g['eapps']:
+        n = g['nevo'][a]
+        versions = []
+        for v in range(n + 1):
+            fields = [['v', {'kind': 'Integer'}]] + [
+                ['x%d' % (k + 1), {'kind': 'Integer', 'null': True}]
+                for k in range(v)]
+            versions.append({'M': {'fields': fields, 'meta': {}}})
+        evolutions = []
+        for k in range(n):
+            u = ('E', a, 'e%d' % (k + 1))
+            texts = ["AddField('M', 'x%d', models.IntegerField, "
+                     "null=True)" % (k + 1)]
+            if g['moved'][a] and k == n - 1:
+                texts.append('MoveToDjangoMigrations()')
+            evolutions.append((u[2], texts, g['evo_deps'].get(u) or {}))
+        proj.write_app(a, versions, evolutions, nv=list(range(n + 1)))
+        if g['moved'][a]:
+            # the migration the app is handed over to: the final table
+            pkg = proj.path(a, 'migs_real')
+            os.makedirs(pkg)
+            open(os.path.join(pkg, '__init__.py'), 'w').close()
+            fields = ''.join(
+                "('x%d', models.IntegerField(null=True)), " % (k + 1)
+                for k in range(n))
+            with open(os.path.join(pkg, '0001_initial.py'), 'w') as f:
+                f.write(
+                    'from django.db import migrations, models\n\n\n'
+                    'class Migration(migrations.Migration):\n'
+                    '    initial = True\n    dependencies = []\n'
+                    "    operations = [migrations.CreateModel(name='M', "
+                    "fields=[('id', models.AutoField(auto_created=True, "
+                    "primary_key=True, serialize=False, "
+                    "verbose_name='ID')), ('v', models.IntegerField()), "
+                    '%s])]\n' % fields)
+    for a in g['mapps']:
+        proj.write_mig_app(a, g['nmig'][a], g['cross'][a])
+    db = 'db.sqlite3'
+    inst_apps = list(g['eapps']) + [a for a in g['mapps']
+                                    if g['applied_m'][a] > 0]
+    av = dict(g['applied_e'])
+    av.update({a: g['applied_m'][a] for a in g['mapps']})
+    migmods = {a: '%s.migs_%d' % (a, g['applied_m'][a])
+               for a in g['mapps'] if g['applied_m'][a] > 0}
+    migmods.update({a: None for a in g['eapps']})
+    ev = proj.run('evolve_api', db=db, apps=inst_apps, app_versions=av,
+                  migmods=migmods)
+    if ev.get('driver_error') or not ev['outcome']['ok']:
+        return None, str(ev.get('outcome') or ev)[:500]
+    # ---- the observed upgrade
+    apps = list(g['eapps']) + list(g['mapps'])
+    av = dict(g['nevo'])
+    av.update(g['nmig'])
+    migmods = {a: '%s.migs_%d' % (a, g['nmig'][a]) for a in g['mapps']}
+    migmods.update({a: '%s.migs_real' % a if g['moved'][a] else None
+                    for a in g['eapps']})
+    return {'db': db, 'apps': apps, 'app_versions': av,
+            'migmods': migmods}, None
+
+
 def run_mig_case(desc):
     rng = seqcase.rng_for('C09m', desc['seed'], desc['i'])
     if desc['i'] % 4 == 3:
@@ -418,64 +482,13 @@ def run_mig_case(desc):
         'evo_deps': {'%s:%s:%s' % k: v for k, v in g['evo_deps'].items()},
         'cross': g['cross'], 'moved': g['moved']}
     try:
-        for a in g['eapps']:
-            n = g['nevo'][a]
-            versions = []
-            for v in range(n + 1):
-                fields = [['v', {'kind': 'Integer'}]] + [
-                    ['x%d' % (k + 1), {'kind': 'Integer', 'null': True}]
-                    for k in range(v)]
-                versions.append({'M': {'fields': fields, 'meta': {}}})
-            evolutions = []
-            for k in range(n):
-                u = ('E', a, 'e%d' % (k + 1))
-                texts = ["AddField('M', 'x%d', models.IntegerField, "
-                         "null=True)" % (k + 1)]
-                if g['moved'][a] and k == n - 1:
-                    texts.append('MoveToDjangoMigrations()')
-                evolutions.append((u[2], texts, g['evo_deps'].get(u) or {}))
-            proj.write_app(a, versions, evolutions, nv=list(range(n + 1)))
-            if g['moved'][a]:
-                # the migration the app is handed over to: the final table
-                pkg = proj.path(a, 'migs_real')
-                os.makedirs(pkg)
-                open(os.path.join(pkg, '__init__.py'), 'w').close()
-                fields = ''.join(
-                    "('x%d', models.IntegerField(null=True)), " % (k + 1)
-                    for k in range(n))
-                with open(os.path.join(pkg, '0001_initial.py'), 'w') as f:
-                    f.write(
-                        'from django.db import migrations, models\n\n\n'
-                        'class Migration(migrations.Migration):\n'
-                        '    initial = True\n    dependencies = []\n'
-                        "    operations = [migrations.CreateModel(name='M', "
-                        "fields=[('id', models.AutoField(auto_created=True, "
-                        "primary_key=True, serialize=False, "
-                        "verbose_name='ID')), ('v', models.IntegerField()), "
-                        '%s])]\n' % fields)
-        for a in g['mapps']:
-            proj.write_mig_app(a, g['nmig'][a], g['cross'][a])
-        db = 'db.sqlite3'
-        inst_apps = list(g['eapps']) + [a for a in g['mapps']
-                                        if g['applied_m'][a] > 0]
-        av = dict(g['applied_e'])
-        av.update({a: g['applied_m'][a] for a in g['mapps']})
-        migmods = {a: '%s.migs_%d' % (a, g['applied_m'][a])
-                   for a in g['mapps'] if g['applied_m'][a] > 0}
-        migmods.update({a: None for a in g['eapps']})
-        ev = proj.run('evolve_api', db=db, apps=inst_apps, app_versions=av,
-                      migmods=migmods)
-        if ev.get('driver_error') or not ev['outcome']['ok']:
+        up, err = write_and_install(proj, g)
+        if up is None:
             return {'key': S.canon(desc), 'nontrivial': False, 'items': [],
                     'stats': {'skipped_install_failed': 1}, 'case': case,
-                    'harness_error': str(ev.get('outcome') or ev)[:500]}
-        # ---- the observed upgrade
-        apps = list(g['eapps']) + list(g['mapps'])
-        av = dict(g['nevo'])
-        av.update(g['nmig'])
-        migmods = {a: '%s.migs_%d' % (a, g['nmig'][a]) for a in g['mapps']}
-        migmods.update({a: '%s.migs_real' % a if g['moved'][a] else None
-                        for a in g['eapps']})
+                    'harness_error': err}
+        db, apps, av, migmods = up['db'], up['apps'], up['app_versions'], \
+            up['migmods']
         drv = rng.choice(['evolve_api', 'evolve_cmd', 'migrate_cmd'])
         ev = proj.run(drv, db=db, apps=apps, app_versions=av,
                       migmods=migmods)
